@@ -112,10 +112,12 @@ def hasNewRelevant (st : NSt) (t : NType) : Bool :=
 
 /-- accessors left in `getsetMethods` by earlier types matter only with `-json`, and only when one of
     them is named like the getter / setter of a visible unexported field that lacks that flag -/
+def accRelevantFor (get : Bool) (st : NSt) (t : NType) : Bool :=
+  ((Ctor.flatten t.tree).filter (fun f => !f.isShadowed && !f.isEmbeded)).any (fun f =>
+    !exported f.name && !flagOf get t f && (accNames st.accs get).contains (accKey get f.name))
+
 def accRelevant (fl : NFlags) (st : NSt) (t : NType) : Bool :=
-  fl.json && ((Ctor.flatten t.tree).filter (fun f => !f.isShadowed && !f.isEmbeded && !exported f.name)).any (fun f =>
-    (!(flagsOf t f).1 && ((st.accs.filter (·.getter)).map (·.name)).contains (Transfer.pascalS f.name)) ||
-    (!(flagsOf t f).2 && ((st.accs.filter (·.isSetter)).map (·.name)).contains ("Set" ++ Transfer.pascalS f.name)))
+  fl.json && (accRelevantFor true st t || accRelevantFor false st t)
 
 def mapCtorRelevant (st : MSt) (t : MType) : Bool :=
   match t.dest with
